@@ -1,3 +1,229 @@
-pub fn run(_cli: common::Cli) -> ! {
-    common::machinery("not built yet")
+//! C12: client-chosen names cannot alter the session server request.
+//!
+//! The real `MojangAdapter` (with the `verif-hooks` origin override) sends its has-joined request
+//! to a plain-HTTP mock on loopback that records the raw request line.
+use common::refs::sha::{minecraft_hex, sha1};
+use common::{Cli, Report, Violation};
+use passage_adapters::authentication::AuthenticationAdapter;
+use passage_adapters_http::MojangAdapter;
+use serde_json::json;
+use std::sync::atomic::{AtomicU64, Ordering};
+use std::sync::{Arc, Mutex};
+use tokio::io::{AsyncReadExt, AsyncWriteExt};
+use uuid::Uuid;
+
+async fn mock_server(log: Arc<Mutex<Vec<String>>>) -> std::net::SocketAddr {
+    let listener = tokio::net::TcpListener::bind("127.0.0.1:0").await.expect("bind");
+    let addr = listener.local_addr().unwrap();
+    tokio::spawn(async move {
+        loop {
+            let Ok((mut sock, _)) = listener.accept().await else { break };
+            let log = log.clone();
+            tokio::spawn(async move {
+                let mut buf: Vec<u8> = vec![];
+                loop {
+                    // read one request head
+                    let head_end = loop {
+                        if let Some(p) = buf.windows(4).position(|w| w == b"\r\n\r\n") {
+                            break Some(p + 4);
+                        }
+                        let mut tmp = [0u8; 4096];
+                        match sock.read(&mut tmp).await {
+                            Ok(0) | Err(_) => break None,
+                            Ok(n) => buf.extend_from_slice(&tmp[..n]),
+                        }
+                    };
+                    let Some(end) = head_end else { return };
+                    let head = String::from_utf8_lossy(&buf[..end]).to_string();
+                    buf.drain(..end);
+                    let line = head.lines().next().unwrap_or("").to_string();
+                    log.lock().unwrap().push(line);
+                    let body = br#"{"id":"069a79f444e94726a5befca90e38aaf5","name":"FromSessionServer","properties":[]}"#;
+                    let resp = format!("HTTP/1.1 200 OK\r\ncontent-type: application/json\r\ncontent-length: {}\r\n\r\n", body.len());
+                    if sock.write_all(resp.as_bytes()).await.is_err() || sock.write_all(body).await.is_err() {
+                        return;
+                    }
+                }
+            });
+        }
+    });
+    addr
+}
+
+fn pct_decode(s: &str, plus_is_space: bool) -> Option<Vec<u8>> {
+    let b = s.as_bytes();
+    let mut out = vec![];
+    let mut i = 0;
+    while i < b.len() {
+        match b[i] {
+            b'%' => {
+                let h = std::str::from_utf8(b.get(i + 1..i + 3)?).ok()?;
+                out.push(u8::from_str_radix(h, 16).ok()?);
+                i += 3;
+            }
+            b'+' if plus_is_space => {
+                out.push(b' ');
+                i += 1;
+            }
+            c => {
+                out.push(c);
+                i += 1;
+            }
+        }
+    }
+    Some(out)
+}
+
+/// Independent reading of the request line; returns the first discrepancy.
+fn judge_request(line: &str, name: &str, hash: &str) -> Option<(String, String)> {
+    let mut parts = line.split(' ');
+    let (method, target, version) = (parts.next().unwrap_or(""), parts.next().unwrap_or(""), parts.next().unwrap_or(""));
+    if method != "GET" || !version.starts_with("HTTP/1.") || parts.next().is_some() {
+        return Some(("request-line-shape".into(), format!("request line {line:?}")));
+    }
+    if target.contains('#') {
+        return Some(("fragment-in-request".into(), format!("request target {target:?} contains a raw '#'")));
+    }
+    let (path, query) = target.split_once('?').unwrap_or((target, ""));
+    if path != "/session/minecraft/hasJoined" {
+        return Some(("request-path-altered".into(), format!("request path {path:?}")));
+    }
+    let mut usernames: Vec<&str> = vec![];
+    let mut server_ids: Vec<&str> = vec![];
+    let mut others: Vec<&str> = vec![];
+    for pair in query.split('&') {
+        let (k, v) = pair.split_once('=').unwrap_or((pair, ""));
+        match pct_decode(k, true).as_deref() {
+            Some(b"username") => usernames.push(v),
+            Some(b"serverId") => server_ids.push(v),
+            _ => others.push(pair),
+        }
+    }
+    if !others.is_empty() {
+        return Some(("extra-parameter".into(), format!("unexpected parameter(s) {others:?} in {query:?}")));
+    }
+    if usernames.len() != 1 {
+        return Some(("username-parameter-count".into(), format!("{} username parameters in {query:?}", usernames.len())));
+    }
+    if server_ids.len() != 1 {
+        return Some(("server-id-parameter-count".into(), format!("{} serverId parameters in {query:?}", server_ids.len())));
+    }
+    let u = usernames[0];
+    let ok = pct_decode(u, false).as_deref() == Some(name.as_bytes()) || pct_decode(u, true).as_deref() == Some(name.as_bytes());
+    if !ok {
+        return Some(("username-altered".into(), format!("username parameter {u:?} does not decode to the claimed name {name:?}")));
+    }
+    if pct_decode(server_ids[0], false).as_deref() != Some(hash.as_bytes()) {
+        return Some(("server-id-altered".into(), format!("serverId parameter {:?}, the connection's hash is {hash}", server_ids[0])));
+    }
+    None
+}
+
+fn class_of(name: &str) -> &'static str {
+    if name.contains('&') || name.contains('=') {
+        "parameter-separator"
+    } else if name.contains('#') {
+        "fragment"
+    } else if name.contains('?') || name.contains('/') || name.contains('\\') || name.contains("..") {
+        "path-or-query-delimiter"
+    } else if name.contains('%') || name.contains('+') {
+        "percent-or-plus"
+    } else if name.chars().any(|c| c.is_control() || c == ' ') {
+        "space-or-control"
+    } else if !name.is_ascii() {
+        "non-ascii"
+    } else {
+        "plain"
+    }
+}
+
+pub fn run(cli: Cli) -> ! {
+    let rep = Report::new("C12", cli.tier, "exploration");
+    let thorough = cli.tier.thorough();
+    // no proxy may sit between the adapter and the loopback mock
+    for v in ["http_proxy", "HTTP_PROXY", "https_proxy", "HTTPS_PROXY", "all_proxy", "ALL_PROXY"] {
+        unsafe { std::env::remove_var(v) };
+    }
+    let symbols: Vec<&str> = vec!["a", "&", "=", "#", "?", "%", "+", " ", "/", "\\", ".", ":", "@", ";", "\"", "<", "\r", "\n", "\t", "\0", "é", "😀", "%26", "../"];
+    let mut names: Vec<String> = vec![];
+    if let Some(case) = &cli.replay {
+        names.push(case["name"].as_str().unwrap_or("").to_string());
+    } else {
+        for s in &symbols {
+            names.push(s.to_string());
+            names.push(format!("a{s}b"));
+        }
+        for p in ["Victim&serverId=0", "a#", "a?x=1", "a%26serverId%3D0", "../../x", "Notch", "", "a&username=b", "x&serverId", "%", "%zz", "a+b", "name with spaces", "&", "=&="] {
+            names.push(p.to_string());
+        }
+        if thorough {
+            for a in &symbols {
+                for b in &symbols {
+                    names.push(format!("{a}{b}"));
+                    names.push(format!("p{a}{b}q"));
+                }
+            }
+        }
+        names.sort();
+        names.dedup();
+    }
+    let server_ids = ["", "srv"];
+    let secrets: [[u8; 16]; 2] = [*b"0123456789abcdef", [0xff; 16]];
+    let pubkey: Vec<u8> = (0..162u32).map(|i| (i * 5 + 1) as u8).collect();
+    let requests = AtomicU64::new(0);
+    let errors = AtomicU64::new(0);
+
+    let rt = tokio::runtime::Builder::new_current_thread().enable_all().build().expect("rt");
+    rt.block_on(async {
+        let log = Arc::new(Mutex::new(vec![]));
+        let addr = mock_server(log.clone()).await;
+        unsafe { std::env::set_var("PASSAGE_VERIF_SESSION_URL", format!("http://{addr}")) };
+        let client: std::net::SocketAddr = "198.51.100.7:40123".parse().unwrap();
+        for (ni, name) in names.iter().enumerate() {
+            for sid in server_ids {
+                let secret = &secrets[ni % 2];
+                let adapter = MojangAdapter::default().with_server_id(sid.to_string());
+                let mut all = sid.as_bytes().to_vec();
+                all.extend_from_slice(secret);
+                all.extend_from_slice(&pubkey);
+                let hash = minecraft_hex(&sha1(&all));
+                log.lock().unwrap().clear();
+                let uuid = Uuid::from_u128(7);
+                let r = tokio::time::timeout(std::time::Duration::from_secs(5), adapter.authenticate(&client, ("h", 1), 769, (name, &uuid), secret, &pubkey)).await;
+                let seen: Vec<String> = log.lock().unwrap().clone();
+                let replay = json!({"name": name, "server_id": sid, "secret_hex": common::hex(secret)});
+                let class = class_of(name);
+                match (r, seen.as_slice()) {
+                    (Err(_), _) => rep.violation(Violation { key: "request-hangs".into(), text: format!("name {name:?}: no answer within 5 s"), replay, weight: name.len() as u64 }),
+                    (Ok(Err(_)), []) => {
+                        // the name could not be sent at all: an error, and no request went out
+                        errors.fetch_add(1, Ordering::Relaxed);
+                    }
+                    (Ok(res), [line]) => {
+                        requests.fetch_add(1, Ordering::Relaxed);
+                        if let Some((k, t)) = judge_request(line, name, &hash) {
+                            rep.violation(Violation { key: format!("{k}:{class}"), text: format!("claimed name {name:?}, server id {sid:?}: {t}; request line {line:?}"), replay, weight: name.len() as u64 });
+                        } else if res.is_err() {
+                            rep.violation(Violation { key: "valid-reply-rejected".into(), text: format!("name {name:?}: the mock's 200 profile was rejected: {res:?}"), replay, weight: name.len() as u64 });
+                        }
+                    }
+                    (Ok(_), many) => rep.violation(Violation { key: format!("request-count:{class}"), text: format!("name {name:?}: {} requests were sent: {many:?}", many.len()), replay, weight: name.len() as u64 }),
+                }
+            }
+        }
+    });
+    let n = requests.load(Ordering::Relaxed);
+    rep.require("requests captured by the mock session server", n, if cli.replay.is_some() { 1 } else { 50 });
+    rep.set("evaluations", json!(names.len() * 2));
+    rep.set("distinct_nontrivial", json!(names.iter().filter(|n| class_of(n) != "plain").count() * 2));
+    rep.set("requests_captured", json!(n));
+    rep.set("names_refused_by_the_client_library", json!(errors.load(Ordering::Relaxed)));
+    rep.set("exhaustive", json!(true));
+    rep.set("rule", json!("every name X, aXb for X in a 24-symbol alphabet (a & = # ? % + space / \\ . : @ ; \" < CR LF TAB NUL é 😀 %26 ../), 15 targeted payloads, and in thorough every XY and pXYq; x server id {\"\", \"srv\"}, two secrets; the raw request line recorded by the mock is parsed independently. Non-trivial = the name contains a character outside [A-Za-z0-9_]."));
+    rep.sample(json!({"name": "Victim&serverId=0", "server_id": "srv", "expect": "one username parameter decoding to the whole name, one serverId equal to the hash"}));
+    rep.sample(json!({"name": "a#", "expect": "username decodes to 'a#'; no raw # in the request target"}));
+    rep.sample(json!({"name": names[names.len() / 2]}));
+    rep.assume("needs the add-only verif-hooks feature of passage-adapters-http (origin override from PASSAGE_VERIF_SESSION_URL); path and query are assembled by the unhooked code; TLS to the real session server is not exercised");
+    rep.assume("both RFC 3986 and form encoding of the same name are accepted ('+' may stand for a space)");
+    rep.finish()
 }
